@@ -153,7 +153,7 @@ func ruleDurableJournal(c *Ctx, r *Report, cat *SQLCat, rule string) {
 // C08: the verdict of the tolerance-band comparison does not become a block failure.
 
 func ruleRateVerdictDropped(c *Ctx, r *Report, rule string, dropped map[string]bool) {
-	r.rule(rule, 2, "a disagreement between the winning records is not returned as a block failure")
+	r.rule(rule, 1, "a disagreement between the winning records is not returned as a block failure")
 	// functions that construct one of the audited verdict messages
 	makers := map[*ssa.Function]bool{}
 	for _, f := range sortedFuncs(c.RBlock) {
@@ -218,14 +218,39 @@ func ruleRateVerdictDropped(c *Ctx, r *Report, rule string, dropped map[string]b
 			}
 		}
 	}
+	topOf := func(f *ssa.Function) *ssa.Function {
+		for f.Parent() != nil {
+			f = f.Parent()
+		}
+		return f
+	}
+	// a helper split off from SyncBlock that merely hands the verdict back is judged at its call site
+	for changed := true; changed; {
+		changed = false
+		for _, f := range c.family(sb) {
+			t := topOf(f)
+			if t == sb || makers[t] || !isNewHelper(t) {
+				continue
+			}
+			for _, ci := range callsOf(f) {
+				if sc := ci.Common().StaticCallee(); sc != nil && makers[sc] && returnsErrOf(f, ci) {
+					makers[t] = true
+					changed = true
+				}
+			}
+		}
+	}
 	for _, f := range c.family(sb) {
+		if makers[topOf(f)] {
+			continue
+		}
 		for _, ci := range callsOf(f) {
 			sc := ci.Common().StaticCallee()
 			if sc == nil || !makers[sc] {
 				continue
 			}
 			n++
-			cons := fmt.Sprintf("SyncBlock: verdict of %s", fname(sc))
+			cons := fmt.Sprintf("SyncBlock: verdict of %s", strings.Join(dedupStrings(sortedCopy(forwardedCallees(ci))), "|"))
 			if returnsErrOf(f, ci) {
 				r.viol(rule, cons, c.ipos(ci), "the error of "+fname(sc)+" (the winning OPR and SPR disagree beyond the tolerance band) is returned by SyncBlock: DBlockSync rolls back and retries the same height for ever, so prices that miners and stakers are free to post make a block permanently unsyncable")
 			} else {
@@ -385,6 +410,20 @@ func rulePayoutsPure(c *Ctx, r *Report, rule string) {
 				}
 			}
 			return true
+		case *ssa.Extract:
+			// one result of a helper that builds the map and returns it with something else (the total paid)
+			if call, ok := x.Tuple.(*ssa.Call); ok {
+				sc := call.Common().StaticCallee()
+				if sc == nil || !isNewHelper(sc) || sc.Blocks == nil {
+					return false
+				}
+				for _, rt := range returnsIn(blockSet(sc)) {
+					if x.Index >= len(rt.Results) || !fresh(rt.Results[x.Index], depth+1) {
+						return false
+					}
+				}
+				return true
+			}
 		case *ssa.UnOp:
 			// a local spilled to memory (captured by a closure): every store to it must be fresh
 			if al, ok := x.X.(*ssa.Alloc); ok && x.Op == token.MUL && al.Referrers() != nil {
